@@ -129,3 +129,12 @@ Proof.
       destruct (emits s st && Z.eqb c' E_STALE && match k with Some O => true | _ => false end); eapply Fa; eauto.
     + inversion H; subst. congruence.
 Qed.
+
+Lemma bind_assoc : forall (a b c : M) st, ((a ;; b) ;; c) st = (a ;; (b ;; c)) st.
+Proof. intros a b c st. unfold bind. destruct (a st) as [[| |] s1]; reflexivity. Qed.
+Lemma bind_assoc4 : forall (a b c d : M) st, ((a ;; (b ;; c)) ;; d) st = (a ;; (b ;; (c ;; d))) st.
+Proof.
+  intros a b c d st. unfold bind. destruct (a st) as [[| |] s1]; try reflexivity.
+  destruct (b s1) as [[| |] s2]; reflexivity.
+Qed.
+
